@@ -112,7 +112,10 @@ typedef struct {
         uint64_t sum_len;
         uint64_t outstanding; /* accepted submissions not yet returned (must be 0/1) */
         int too_big;          /* message too large to keep: skip digest oracle */
+        int obj_in_arena, buf_in_arena;
 } hctx;
+
+static long nbase_ctx;
 
 static const algdesc *A;
 static const famdesc *F;
@@ -199,7 +202,8 @@ static void returned(int c, int by_reject)
         if (h->buf && fnv(h->data, h->len) != h->bufsum) monitor("C08-caller-buffer-modified", c);
         if (FLD64(h->obj, A->off_total) != h->sum_len) monitor("C15-total-length", c);
         if (h->last_pending) oracle_check(c);
-        if (guard_mode && h->buf) guard_free(h->buf); else free(h->buf);
+        if (h->buf_in_arena) { arena_release(); h->buf_in_arena = 0; }
+        else if (guard_mode && h->buf) guard_free(h->buf); else free(h->buf);
         h->buf = NULL;
         h->st = h->last_pending ? ST_FRESH : ST_IDLE;
 }
@@ -269,6 +273,7 @@ int main(int argc, char **argv)
         OpenSSL_add_all_digests();
         tramp_setup();
         guard_setup();
+        arena_setup();
         guard_out = fr;
 
         long done = 0;
@@ -285,7 +290,11 @@ int main(int argc, char **argv)
                 for (int i = 0; i < nctx; i++) {
                         hctx *h = &cx[i];
                         memset(h, 0, sizeof(*h));
-                        if (posix_memalign((void **) &h->obj, 64, A->ctx_size)) return 2;
+                        if (i == 0 && arena_mid && !guard_mode && episode % 2 == 0 && A->ctx_size <= (1u << 20)) {
+                                h->obj = arena_mid;           /* address with all-zero low 32 bits */
+                                h->obj_in_arena = 1;
+                                nbase_ctx++;
+                        } else if (posix_memalign((void **) &h->obj, 64, A->ctx_size)) return 2;
                         memset(h->obj, fill ^ 0x5A, A->ctx_size);
                         FLD32(h->obj, A->off_error) = 0;                         /* isal_hash_ctx_init */
                         FLD32(h->obj, A->off_status) = ISAL_HASH_CTX_STS_COMPLETE;
@@ -358,8 +367,10 @@ int main(int argc, char **argv)
                                 uint32_t len = pick_len(&R, maxlen);
                                 uint64_t dseed = rng_u64(&R) | 1;
                                 uint32_t align = rng_below(&R, 64);
-                                uint8_t *buf = guard_mode ? guard_alloc_al(len, 0) : malloc((size_t) len + 64 + 1);
-                                uint8_t *data = guard_mode ? buf : buf + align;
+                                uint8_t *sbuf = (!guard_mode && episode % 2 != 0 && rng_below(&R, 5) == 0) ? arena_straddle(&R, len, 1) : NULL;
+                                int straddle = sbuf != NULL;   /* only in episodes whose context 0 is not in the arena */
+                                uint8_t *buf = guard_mode ? guard_alloc_al(len, 0) : straddle ? sbuf : malloc((size_t) len + 64 + 1);
+                                uint8_t *data = (guard_mode || straddle) ? buf : buf + align;
                                 xs_bytes(dseed, data, len);
                                 fprintf(fo, "S %d %d %u %llu\n", c, flags, len, (unsigned long long) dseed);
                                 /* expected verdict by the API contract */
@@ -391,7 +402,7 @@ int main(int argc, char **argv)
                                                 }
                                                 if (memcmp(a, b, A->ctx_size)) monitor("C11-context-changed-by-reject", i);
                                         }
-                                        if (guard_mode) guard_free(buf); else free(buf);
+                                        if (straddle) arena_release(); else if (guard_mode) guard_free(buf); else free(buf);
                                         /* clear error as a well-behaved caller may; keeps later monitors exact */
                                 } else {
                                         /* C11: an accepted submit reports no error on the context it was given
@@ -414,6 +425,8 @@ int main(int argc, char **argv)
                                         h->st = ST_FLIGHT;
                                         h->last_pending = (flags & 2) != 0;
                                         h->buf = buf;
+                                        h->buf_in_arena = straddle;
+
                                         h->data = data;
                                         h->len = len;
                                         h->bufsum = fnv(data, len);
@@ -430,9 +443,10 @@ int main(int argc, char **argv)
                 }
                 for (int i = 0; i < nctx; i++) {
                         if (cx[i].st == ST_FLIGHT) monitor("C06-stranded-after-drain", i);
-                        free(cx[i].obj);
+                        if (!cx[i].obj_in_arena) free(cx[i].obj);
                         free(cx[i].msg);
-                        if (guard_mode && cx[i].buf) guard_free(cx[i].buf); else free(cx[i].buf);
+                        if (cx[i].buf_in_arena) arena_release();
+                        else if (guard_mode && cx[i].buf) guard_free(cx[i].buf); else free(cx[i].buf);
                 }
                 free(mgr);
         }
